@@ -49,7 +49,7 @@ ASSUMPTIONS = [
 
 FAULT_KINDS = [
     "np_global_draws", "np_global_reseed", "py_random_reseed", "ctor_with_seed_data", "reset_seed", "reset_seed_noarg", "foreign_draws_on_shared_generator",
-    "crafted_boundary_stream", "crafted_extreme_stream", "in_place_operation_replacement",
+    "crafted_boundary_stream", "crafted_extreme_stream", "in_place_operation_replacement", "reentrant_call",
 ]
 
 PROBES = [
